@@ -632,9 +632,14 @@ def run(ctx, replay):
     fails = vcheck.lean_gate(ctx, ["AdeptProofs.Props.C11"], thms,
                              required=[NSA + r for r in REQUIRED_A] + [NSB + r for r in REQUIRED_B])
     va = [("W4", dict(W=4)), ("W4-pausable", dict(W=4, pausable=True))]
+    # the same driver in the configuration ADEPT_STACK_THREAD_UNSAFE (the active stack is a plain global, Stack::activate takes
+    # its other branch): the protocol misuses, above all the second stack, must be refused there as well
+    unsafe_kw = dict(W=4, extra_defs=["ADEPT_STACK_THREAD_UNSAFE"])
     with ThreadPoolExecutor(max_workers=4) as ex:
         fa = [ex.submit(tc.build, **kw) for _, kw in va]
+        fu = ex.submit(tc.build, **unsafe_kw)
         exes_a = [f.result() for f in fa]
+        exe_unsafe = fu.result()
     vb = [("default", False), ("bounds", True)]
     with ThreadPoolExecutor(max_workers=2) as ex:
         exes_b = list(ex.map(lambda v: build_b(v[1]), vb))
@@ -644,7 +649,7 @@ def run(ctx, replay):
         r = json.load(open(replay))
         want_build = (r.get("build") or "").split("/")[0]
         if r.get("part", "A") == "A":
-            for (label, kw), exe in zip(va, exes_a):
+            for (label, kw), exe in list(zip(va, exes_a)) + [(("W4-thread-unsafe", unsafe_kw), exe_unsafe)]:
                 if want_build in ("", label):
                     meta = {"pausable": bool(kw.get("pausable")), "inj": [], "vals": [], "want": "replay"}
                     v, _, il = judge_a(exe, r["ops"], meta)
@@ -681,6 +686,24 @@ def run(ctx, replay):
                 cases.append(gen_case_a(ctx.rng, kw["W"], pausable, cls, maxnew=3 if quick else 9))
         for k in range(0, len(cases), 400):
             run_cases_a(ctx, exe, label, cases[k:k + 400])
+    # ADEPT_STACK_THREAD_UNSAFE build: directed second-stack histories (a second activating Stack right after construction, inside a
+    # recording, after deactivate/activate of the first, twice in a row) + random histories of every class (second_stack at the
+    # full count, the others at a quarter)
+    label = "W4-thread-unsafe"
+    directed = []
+    for pre in ([], ["nr"], ["nr", "asg 0 mul v0 v1"], ["deact", "act"], ["nr", "asg 1 v0", "deact", "act"], ["stack2"]):
+        ops = ["cfg 4 0 1", "new 0 2", "new 1 3"] + pre + ["stack2", "nr", "asg 1 mul v0 v0", "stack2", "tape"]
+        directed.append((ops, {"inj": [(i, "second_stack") for i, o in enumerate(ops) if o == "stack2"], "vals": [], "pausable": False,
+                               "want": "second_stack"}))
+    run_cases_a(ctx, exe_unsafe, label + "/directed", directed)
+    per = (150 if quick else 2000)
+    cases = []
+    for cls in A_CLASSES:
+        for j in range(per if cls == "second_stack" else per // 4):
+            cases.append(gen_case_a(ctx.rng, 4, False, cls, maxnew=3 if quick else 9))
+    for k in range(0, len(cases), 400):
+        run_cases_a(ctx, exe_unsafe, label, cases[k:k + 400])
+    ctx.notes["partA_builds"] = [l for l, _ in va] + [label]
     for (label, bounds), exe in zip(vb, exes_b):
         cc = [(["cfg %d" % (1 if bounds else 0)] + c["ops"][1:], {"inj": [], "bounds": bounds, "want": "corpus:" + c["name"]})
               for c in corpus if c["part"] == "B" and (c["build"] in (None, label))]
